@@ -314,6 +314,13 @@ pub fn run(tier: &str, only: Option<&Value>) -> i32 {
         if flush(&mut rep, ps, target, &mut rows, &mut rcases, &mut owners, &mut dedup).is_err() {
             return rep.finish();
         }
+        // the auxiliary module of the layout space is shared by all its cases: judged once, on its own
+        if only_i.is_none() {
+            if let Some(v) = checks::layout_rustc::aux_module_violation(&layout, ps, target, "C13") {
+                rep.violation(v);
+                return rep.finish();
+            }
+        }
         // layout space, in chunks
         let chunks: Vec<std::ops::Range<usize>> = match &only_i {
             Some((s, i, _)) if s == "layout" => vec![*i..*i + 1],
